@@ -388,6 +388,7 @@ func (loader *Loader) resolveComponent(doc *T, ref string, path *url.URL, resolv
 	componentPath *url.URL,
 	err error,
 ) {
+	internalRef := strings.HasPrefix(ref, "#")
 	if componentDoc, ref, componentPath, err = loader.resolveRefAndDocument(doc, ref, path); err != nil {
 		return nil, nil, err
 	}
@@ -471,6 +472,10 @@ func (loader *Loader) resolveComponent(doc *T, ref string, path *url.URL, resolv
 			return nil, nil, err
 		}
 		err = nil
+	} else if internalRef && componentDoc != nil && componentDoc.url != nil {
+		// "#/..." met inside a file that is one element (not a document) was found in the
+		// referring document: what it designates lives there, and so do its own references
+		componentPath = componentDoc.url
 	}
 
 	setPathRef := func(target any) {
